@@ -13,6 +13,8 @@ def str_decode(data, encoding="utf-8", errors="strict"):
     the encoding name is validated by use on the send side)."""
     b = bytes(data)
     if not fn("U_ok", "bool", b):
+        if nondet_bool():
+            raise UnicodeError  # e.g. the idna / punycode codecs raise the base class itself
         raise UnicodeDecodeError
     return fn("U_val", "obj", b)
 
@@ -63,6 +65,7 @@ class BytesIO:
     def __init__(self, initial=b""):
         self.data = bytes(initial)
         self.pos = 0
+        self.eof_data = b""  # ghost: the input on which the last load_from_file() ran out of data (contracts/c_filebased.py)
 
     def __enter__(self):
         return self
@@ -77,6 +80,58 @@ class BytesIO:
 
     def getvalue(self):
         return self.data
+
+    def write(self, b):
+        """write at the current position (overwriting what follows it, extending the file when needed)"""
+        b = bytes(b)
+        self.data = self.data[:self.pos] + b + self.data[self.pos + len(b):]
+        self.pos = self.pos + len(b)
+        return len(b)
+
+    def seek(self, offset):
+        assume(offset >= 0)
+        self.pos = offset
+        return offset
+
+    def getbuffer(self):
+        return self.data
+
+
+class ExpectedLoadError(Exception):
+    """stands for the `expected_load_error` / `expected_decompress_error` classes given to a serializer's constructor"""
+
+
+class Decompressor:
+    """zlib.decompressobj() / bz2.BZ2Decompressor() as used by the compressor wrapper (DecompressorInterface):
+    ghost IN = everything fed so far; Z_kind(IN): 0 = stream not finished, 1 = end-of-stream marker reached, 2 = corrupt;
+    the outputs of the successive calls concatenate to Z_out(IN); after the end unused_data == Z_unused(IN), which is a
+    suffix of IN strictly shorter than IN (the compressed stream has at least one byte)."""
+
+    def __init__(self):
+        self.IN = b""
+        self.OUT = b""
+        self.eof = False
+        self.unused_data = b""
+
+    def decompress(self, data):
+        b = bytes(data)
+        if self.eof:
+            raise EOFError
+        x = self.IN + b
+        assume(0 <= fn("Z_kind", "int", x) and fn("Z_kind", "int", x) <= 2)
+        if fn("Z_kind", "int", x) == 2:
+            assume(len(x) >= 1)  # an empty input is never corrupt
+            raise ExpectedLoadError
+        self.IN = x
+        out = nondet_bytes()
+        assume(self.OUT + out == fn("Z_out", "bytes", x))
+        self.OUT = self.OUT + out
+        if fn("Z_kind", "int", x) == 1:
+            self.eof = True
+            self.unused_data = fn("Z_unused", "bytes", x)
+            assume(len(self.unused_data) < len(x) and x[len(x) - len(self.unused_data):] == self.unused_data)
+            assume(len(self.unused_data) < len(b))  # the end marker is inside the last chunk: an earlier prefix was not finished
+        return out
 
 
 class Unpickler:
@@ -130,3 +185,43 @@ def strerror(code):
 
 def noop(*args):
     return None
+
+
+class closing:
+    """contextlib.closing(thing): calls thing.close() on exit, never swallows"""
+
+    def __init__(self, thing):
+        self.thing = thing
+
+    def __enter__(self):
+        return self.thing
+
+    def __exit__(self, et, ev, tb):
+        self.thing.close()
+        return False
+
+
+class Compressor:
+    """zlib.compressobj() / bz2.BZ2Compressor() (CompressorInterface): the outputs of compress() calls followed by flush()
+    concatenate to Z_comp(everything fed)."""
+
+    def __init__(self):
+        self.IN = b""
+        self.flushed = False
+        self.emitted = b""
+
+    def compress(self, data):
+        assume(not self.flushed)
+        self.IN = self.IN + bytes(data)
+        out = nondet_bytes()
+        self.emitted = self.emitted + out
+        return out
+
+    def flush(self):
+        assume(not self.flushed)
+        self.flushed = True
+        whole = fn("Z_comp", "bytes", self.IN)
+        assume(len(self.emitted) <= len(whole) and whole[:len(self.emitted)] == self.emitted)  # what was emitted is a prefix
+        out = whole[len(self.emitted):]
+        self.emitted = whole
+        return out
